@@ -7,7 +7,8 @@ cd $wt || exit 9
 git checkout -q -- . ; 
 pkgdir=$(python3 -c "import json;print(json.load(open('$md/meta.json'))['demo_pkg_dir'])")
 demo=$(ls $md/*_test.go | head -1)
-run_demo() { cp $demo $wt/$pkgdir/zz_demo_test.go; (cd $wt && timeout 300 go test -vet=off -count=1 -run 'Demo|C[0-9][0-9]' ./$pkgdir/ >/tmp/demo_$pid_$k.log 2>&1); rc=$?; rm -f $wt/$pkgdir/zz_demo_test.go; return $rc; }
+tests=$(grep -o '^func Test[A-Za-z0-9_]*' $demo | sed 's/func //' | grep -v '^TestMain$' | paste -sd'|')
+run_demo() { cp $demo $wt/$pkgdir/zz_demo_test.go; (cd $wt && timeout 300 go test -vet=off -count=1 -run "^($tests)\$" ./$pkgdir/ >/tmp/demo_${pid}_$k.log 2>&1); rc=$?; rm -f $wt/$pkgdir/zz_demo_test.go; return $rc; }
 git apply --check $md/patch.diff || { echo "$pid m$k: patch does not apply"; exit 1; }
 git apply $md/patch.diff
 go build ./... || { echo "$pid m$k: does not build"; git checkout -q -- .; exit 1; }
